@@ -208,6 +208,15 @@ func (C15) Run(c core.Case, ctx *core.Ctx) []core.Violation {
 					texec = rec
 				}
 			}
+			memo := false
+			for _, rec := range rt.Log[:res.LogFrom] {
+				if rec.Err != nil && rt.Parties[rec.Party].Once && error(rec.Err) == res.Err {
+					memo = true // the memoised failure of a run-once party
+				}
+			}
+			if firstErr == nil && res.ErrKind == "injected" && !memo {
+				add("built-phantom-error", "Call", fmt.Sprintf("op %d: no callback failed during this call, yet it reports %s", oi, errStr(res.Err)))
+			}
 			if firstErr != nil {
 				ctx.St.Inc("c15_callback_error")
 				if res.Err != error(firstErr.Err) {
